@@ -216,8 +216,12 @@ class failing_result_write:
 
 
 class CropRun:
-    def __init__(self, tmp, kind, name="cx"):
-        self.tmp, self.kind, self.name = tmp, kind, name
+    def __init__(self, tmp, kind, name="cx", style="named"):
+        # style: "named" (fn and name given), "inferred-name" (the crop is named after its function),
+        #        "fn-assigned" (the crop is constructed by name, the function assigned to crop.fn afterwards)
+        if style == "inferred-name":
+            name = "swept_failing"
+        self.tmp, self.kind, self.name, self.style = tmp, kind, name, style
         self.parent = os.path.join(tmp, "parent")
         os.makedirs(self.parent, exist_ok=True)
         shutil.rmtree(os.path.join(self.parent, f".xyz-{name}"), ignore_errors=True)
@@ -237,7 +241,14 @@ class CropRun:
         from xyzpy.gen.cropping import Crop
         if os.path.exists(os.path.join(self.location(), "xyz-settings.jbdmp")):
             return Crop(name=self.name, parent_dir=self.parent, **kw)
-        return Crop(fn=self.fn(sw if sw is not None else self.sown.sw), name=self.name, parent_dir=self.parent, **kw)
+        fn = self.fn(sw if sw is not None else self.sown.sw)
+        if self.style == "inferred-name":
+            return Crop(fn=fn, parent_dir=self.parent, **kw)
+        if self.style == "fn-assigned":
+            crop = Crop(name=self.name, parent_dir=self.parent, **kw)
+            crop.fn = fn
+            return crop
+        return Crop(fn=fn, name=self.name, parent_dir=self.parent, **kw)
 
     def result_ids(self):
         fs = glob.glob(os.path.join(self.location(), "results", "xyz-result-*.jbdmp"))
